@@ -8,6 +8,7 @@ structure D where
   p : Pool
   reg : List TxRec := []
   sink : Bool := false
+  replica : Bool := false
 deriving Inhabited
 
 def argI (toks : List String) (k : String) (d : Int) : Int := (argInt? toks k).getD d
@@ -24,6 +25,20 @@ def sortNat (xs : List Nat) : List Nat := xs.foldr insertNat []
 def clsStr : Cls → String
   | .ok => "ok" | .nonceLow => "nonce-low" | .nonceHigh => "nonce-high" | .funds => "funds" | .feeLow => "fee-low"
   | .doubleSpend => "double-spend" | .dup => "dup" | .full => "full" | .oversized => "oversized" | .negative => "negative"
+
+/-- class of a transaction altered after construction (what the basic check answers) -/
+def brokenOf (toks : List String) : Option String :=
+  match arg? toks "tamper" with
+  | some "outpk" | some "pseudo" | some "fee" => some "commit"
+  | some "proof" | some "sig" => some "proof"
+  | _ => none
+
+def clsOf (cls : Cls) (t : TxRec) : String :=
+  if cls == .oversized then
+    match t.broken with
+    | some b => if b.startsWith "pad" then "oversized" else b
+    | none => "oversized"
+  else clsStr cls
 
 def committedLine (p : Pool) : String := s!"cn={showN p.c.nonce} cb={showI p.c.bal} ct={showI p.c.tok}"
 
@@ -54,7 +69,7 @@ def submit (d : D) (toks : List String) (t : TxRec) : D × String :=
   if argI toks "sub" 1 == 0 then (d, s!"id={id} img={img} built")
   else
     let (cls, p') := addTx d.p { id := id, t := (reg[id]?).getD t }
-    ({ d with p := p' }, s!"id={id} img={img} add={clsStr cls} {dump p'}")
+    ({ d with p := p' }, s!"id={id} img={img} add={clsOf cls ((reg[id]?).getD t)} {dump p'}")
 
 def dedup (xs : List Nat) : List Nat := xs.foldl (fun acc x => if acc.contains x then acc else acc ++ [x]) []
 
@@ -69,7 +84,10 @@ def touched (before after : Pool) : List Nat :=
 
 def commitWith (d : D) (es : List E) : D × String :=
   match forceEntries d.p es with
-  | none => (d, "propose=panic")
+  | none =>
+    -- the proposer path does not verify proofs: a block that executes but holds a tampered confidential transaction is
+    -- built (PreRunBlock) and then refused by CheckBlock on every node
+    if execOk d.p.c es then (d, "validate=false") else (d, "propose=panic")
   | some p' =>
     if (touched d.p p').length ≥ 2 then ({ d with p := p', sink := true }, "nondet")
     else ({ d with p := p' }, s!"h={p'.c.height} txs={showIds (es.map (·.id))} {committedLine p'} {dump p'}")
@@ -82,7 +100,7 @@ def step (s : Option D) (toks : List String) : Option D × String :=
                        utxoSize := (argI toks "utxosize" 1000).toNat, maxReap := (argI toks "maxreap" 10000).toNat,
                        accts := (argI toks "accts" 3).toNat }
     let p := Model.Mempool.init cfg (argI toks "wallets" 2).toNat (argI toks "bal" 1000000000) (argI toks "tbal" 1000)
-    (some { p := p }, "ok " ++ committedLine p)
+    (some { p := p, replica := argI toks "replica" 0 == 1 }, "ok " ++ committedLine p)
   | op :: _ =>
     match s with
     | none => (none, "nopool")
@@ -120,7 +138,7 @@ def step (s : Option D) (toks : List String) : Option D × String :=
             if change < 0 then (some d, "build=funds") else
             let to := (argI toks "to" 1).toNat
             let outs := (to, amount) :: (if change > 0 then [(w, change)] else [])
-            let (d, a) := submit d toks { kind := .uin, spends := o.id, outs := outs, gas := utxoGas }
+            let (d, a) := submit d toks { kind := .uin, spends := o.id, outs := outs, gas := utxoGas, broken := brokenOf toks }
             (some d, a)
           else
             let afee := feeOfGas (calGas amount)
@@ -131,10 +149,10 @@ def step (s : Option D) (toks : List String) : Option D × String :=
               let change := change - ufee
               if change ≤ 0 then (some d, "build=funds") else
               let (d, a) := submit d toks { kind := .uin, spends := o.id, outs := [(w, change)], aout := some (to, amount),
-                                            gas := calGas amount + utxoGas }
+                                            gas := calGas amount + utxoGas, broken := brokenOf toks }
               (some d, a)
             else
-              let (d, a) := submit d toks { kind := .uin, spends := o.id, outs := [], aout := some (to, amount), gas := calGas amount }
+              let (d, a) := submit d toks { kind := .uin, spends := o.id, outs := [], aout := some (to, amount), gas := calGas amount, broken := brokenOf toks }
               (some d, a)
       | "resub" =>
         let id := (argI toks "id" 0).toNat
@@ -143,7 +161,7 @@ def step (s : Option D) (toks : List String) : Option D × String :=
         | none => (some d, "notx")
         | some t =>
           let (cls, p') := addTx d.p { id := id, t := t }
-          (some { d with p := p' }, s!"add={clsStr cls} {dump p'}")
+          (some { d with p := p' }, s!"add={clsOf cls t} {dump p'}")
       | "reap" =>
         let es := reap d.p (argI toks "max" 1000).toNat
         let ex := match execBlock d.p.c [] (es.map (·.t)) with | some _ => "ok" | none => "panic"
@@ -156,6 +174,20 @@ def step (s : Option D) (toks : List String) : Option D × String :=
         let (d, a) := commitWith d (entries d.reg ids)
         (some d, a)
       | "conc" => (some { d with sink := true }, "conc viol=none")
+      | "window" =>
+        let id := (argI toks "id" 0).toNat
+        if argI toks "id" 0 < 0 then (some d, "notx") else
+        match d.reg[id]? with
+        | none => (some d, "notx")
+        | some t =>
+          let e : E := { id := id, t := t }
+          -- first half of AddTx, the verdicts of a block holding exactly this transaction inside the window, second half
+          let pc := putC { p := d.p } e
+          let ex := execOk pc.p.c [e]
+          let during := if !ex then "propose-panic" else toString (verdict pc [e])
+          let cold := if !ex || !d.replica then "-" else toString (verdictCold pc.p.c [e])
+          let (cls, pc') := finishC pc e
+          (some { d with p := pc'.p }, s!"during={during} cold={cold} add={clsOf cls t} {dump pc'.p}")
       | _ => (some d, "bad-op")
   | [] => (s, "bad-op")
 
